@@ -48,12 +48,12 @@ type c18Ctx struct {
 
 type c18Flow struct {
 	name    string
-	token   bool                         // the request is a token request (must never yield tokens when faulted)
-	setup   func(c *c18Ctx)              // prefix
-	request func(c *c18Ctx) c18Resp      // the faulted request (also used for retries)
+	token   bool                           // the request is a token request (must never yield tokens when faulted)
+	setup   func(c *c18Ctx)                // prefix
+	request func(c *c18Ctx) c18Resp        // the faulted request (also used for retries)
 	attack  func(c *c18Ctx) (bool, string) // an attempt that must always be refused; returns (accepted, detail)
-	single  bool                         // the credential is single-use: at most one success among request and retries
-	burns   bool                         // the attack step itself consumes the credential: run it only after the retry
+	single  bool                           // the credential is single-use: at most one success among request and retries
+	burns   bool                           // the attack step itself consumes the credential: run it only after the retry
 }
 
 func tokResp(tr *h.TokenResult) c18Resp {
